@@ -65,6 +65,31 @@ theorem guard_before_first_effect :
   refine ⟨fun m hm => ?_, by decide⟩
   simpa using List.all_eq_true.mp h m hm
 
+/-- Who else can write under the collection prefix. Over tables regenerated from the whole crate `rs/anda_db/src`:
+* in the index modules, the `pub` / `pub(crate)` fns of `BTree` / `BM25` / `Hnsw` that (transitively, closures included)
+  reach a `Storage` write are among `new`, `with_virtual_field`, `bootstrap`, `flush`, `compact_index`, `drop_data` — exactly
+  the calls the skeleton extractor counts as a storage mutation when `impl Collection` makes them, so every such call sits
+  inside a skeleton judged by `guard_before_first_effect` (`insert` / `remove` / `update` / searches only touch memory);
+* no other source file of the crate calls a `Storage` write or the object store; in collection.rs no write call site lies
+  outside the fns of `impl Collection`; nothing in the crate `spawn`s a task (a writer detached from the future that holds
+  the lease would escape both the gate and the cancel guard).
+Together with `guard_before_first_effect`: every `Storage` write call site that can touch the collection prefix is reached
+only through a guarded entry point, a constructor, `close` or `drop_data`. -/
+theorem storage_writers_closed :
+    (∀ w ∈ CollectionGuards.indexWriters, w.2 ∈ CollectionGuards.indexMutMarkers) ∧
+    CollectionGuards.storageWriteSitesElsewhere = [] ∧
+    CollectionGuards.writeSitesOutsideImplCollection = 0 ∧
+    CollectionGuards.filesThatSpawn = [] ∧
+    CollectionGuards.privateWritersCalledOutside = [] := by
+  refine ⟨fun w hw => ?_, by decide, by decide, by decide, by decide⟩
+  have h := CollectionGuards.gen_index_writers_marked
+  have := List.all_eq_true.mp h w hw
+  simpa using this
+
+/-- non-vacuity: the index table sees the real flush / drop paths of all three index kinds -/
+example : [("BTree", "flush"), ("BM25", "flush"), ("Hnsw", "flush"), ("BTree", "drop_data"), ("Hnsw", "bootstrap")].all
+    (fun w => CollectionGuards.indexWriters.contains w) = true := by decide
+
 /-- What the accepted shape is, for **every** marker list: up to lifecycle loads, a `GuardOK` skeleton is
 `gate :: ensure_mutable()? :: cancel_guard :: body ++ disarm :: poison*` where the body consists of storage mutations,
 calls, awaits and poison calls only — i.e. exactly the program of the model's `mutator` thread
